@@ -41,6 +41,7 @@ type srEvent struct {
 	B   int    `json:"b,omitempty"`
 	Arr int    `json:"arr,omitempty"`
 	E   int    `json:"e,omitempty"`
+	Len int    `json:"len"` // bufget: bytes already in the buffer as it comes out of the pool
 }
 
 type srRecorder struct {
@@ -66,7 +67,9 @@ func (r *srRecorder) id(p uintptr) int {
 	return v
 }
 
-func (r *srRecorder) add(ev string, b, arr, e uintptr) {
+func (r *srRecorder) add(ev string, b, arr, e uintptr) { r.addLen(ev, b, arr, e, 0) }
+
+func (r *srRecorder) addLen(ev string, b, arr, e uintptr, n int) {
 	g := goid()
 	r.mu.Lock()
 	if r.on {
@@ -76,7 +79,7 @@ func (r *srRecorder) add(ev string, b, arr, e uintptr) {
 			gi = int64(len(r.gids) + 1)
 			r.gids[g] = gi
 		}
-		r.evs = append(r.evs, srEvent{Seq: r.seq, G: gi, Ev: ev, B: r.id(b), Arr: r.id(arr), E: r.id(e)})
+		r.evs = append(r.evs, srEvent{Seq: r.seq, G: gi, Ev: ev, B: r.id(b), Arr: r.id(arr), E: r.id(e), Len: n})
 	}
 	r.mu.Unlock()
 }
@@ -137,6 +140,31 @@ func (c consoleSink) Write(b []byte) (int, error) { c.log.consume(b, true); retu
 
 var srTag *log.Tag
 
+// srPoison is a user-supplied array value whose encoder fails half-way: the log call panics inside the
+// layout, the caller recovers - and whatever the library had in its hands must not leak into later lines.
+type srPoison struct{}
+
+func (srPoison) EncodeArray(enc log.Encoder) {
+	enc.AppendInt64(1)
+	enc.AppendString("POISON")
+	panic("poison")
+}
+
+// srCall logs one event; poisoned events are expected to panic with the encoder's own value.
+func srCall(ctx context.Context, id int64, size int, poison bool) (unexpected any) {
+	if !poison {
+		srLog(ctx, id, size)
+		return nil
+	}
+	defer func() {
+		if p := recover(); p != nil && p != "poison" {
+			unexpected = p
+		}
+	}()
+	log.Info(ctx, srTag, log.Int("id", id), log.String("secret", strings.Repeat("S", size)), log.Array("arr", srPoison{}), log.Int("end", id))
+	return nil
+}
+
 // srLog is the single call site: the same statement logs concurrently and alone.
 func srLog(ctx context.Context, id int64, size int) {
 	log.Info(ctx, srTag, log.Int("id", id), log.String("pad", strings.Repeat(string(rune('a'+id%26)), size)),
@@ -156,7 +184,7 @@ func cmdSyncRec(f hx.Flags, r *hx.Result) {
 	log.RegisterTimeRotation("h", log.TimeRotation{Interval: time.Hour})
 	log.VerifBuf = func(op int, b *bytes.Buffer) {
 		if op == 0 {
-			srRec.add("bufget", uintptr(unsafe.Pointer(b)), 0, 0)
+			srRec.addLen("bufget", uintptr(unsafe.Pointer(b)), 0, 0, b.Len())
 		} else {
 			srRec.add("bufput", uintptr(unsafe.Pointer(b)), arrayOf(b.Bytes()), 0)
 		}
@@ -213,8 +241,10 @@ func cmdSyncRec(f hx.Flags, r *hx.Result) {
 		case "console+slowsink": // both layouts at once on the shared pools
 			cfg["appender.out.type"] = "Console"
 			cfg["appender.out.layout.type"] = "TextLayout"
+			cfg["appender.out.layout.fileLineLength"] = "300" // wide: never truncates, and formats each site first
 			cfg["appender.out2.type"] = "SlowSink"
 			cfg["appender.out2.layout.type"] = "JSONLayout"
+			cfg["appender.out2.layout.fileLineLength"] = "24" // narrow: always truncates the harness's own path
 		case "slowsink+loggerlayout":
 			cfg["appender.out.type"] = "SlowSink"
 			ex["layout.type"] = layout
@@ -236,10 +266,6 @@ func cmdSyncRec(f hx.Flags, r *hx.Result) {
 			refs = append(refs, sys.Ref{Ref: "out2"})
 		}
 		cfg.AddLogger("lg", "Logger", "", "sync_tag", refs, len(refs) > 1, ex)
-		if err := log.Refresh(cfg.Map(nil)); err != nil {
-			r.SetInfra("syncrec refresh: %v", err)
-			return
-		}
 		// every third run installs a context-fields hook that hands out one shared slice with spare capacity
 		var sharedCtx [8]log.Field
 		sharedCtx[0], sharedCtx[1] = log.String("trace", "t-1"), log.Int("span", 9)
@@ -262,14 +288,84 @@ func cmdSyncRec(f hx.Flags, r *hx.Result) {
 		}
 		desc := map[string]any{"sink": sinkKind, "layout": layout, "goroutines": goroutines, "events_each": per,
 			"ctx_hook": log.FieldsFromContext != nil, "rotation_churn": log.VerifNow != nil}
+		type evt struct {
+			id     int64
+			size   int
+			poison bool
+		}
+		// the same events formatted alone, through the same logger kind and call site, into `want`
+		want := map[string]int{}
+		runAlone := func(all []evt, only string) bool {
+			log.Destroy()
+			log.VerifReset()
+			srTag = log.RegisterTag("sync_tag")
+			alone := &sinkLog{}
+			saveOut, saveSlow := log.Stdout, slowSinkLog
+			log.Stdout = consoleSink{alone}
+			slowSinkLog = alone
+			defer func() { log.Stdout, slowSinkLog = saveOut, saveSlow }()
+			cfg2 := sys.Cfg{}
+			for k, v := range cfg {
+				if only != "" && strings.HasPrefix(k, "appender.") && !strings.HasPrefix(k, "appender."+only+".") {
+					continue
+				}
+				if only != "" && strings.HasPrefix(k, "logger.lg.appenderRef") {
+					continue
+				}
+				cfg2[k] = v
+			}
+			if only != "" {
+				cfg2["logger.lg.appenderRef.ref"] = only
+			}
+			if sinkKind == "file" || sinkKind == "rolling" {
+				cfg2["appender.out.type"] = "Console"
+				delete(cfg2, "appender.out.fileDir")
+				delete(cfg2, "appender.out.fileName")
+				delete(cfg2, "appender.out.rotation")
+				delete(cfg2, "appender.out.maxAge")
+			}
+			if err := log.Refresh(cfg2.Map(nil)); err != nil {
+				r.SetInfra("syncrec refresh (alone): %v", err)
+				return false
+			}
+			for _, e := range all {
+				before := len(alone.writes)
+				if p := srCall(ctx, e.id, e.size, e.poison); p != nil {
+					r.Violate("log-panic:sync", desc, "logging alone panicked: %v", p)
+				}
+				for _, w := range alone.writes[before:] {
+					want[string(w)]++
+				}
+			}
+			log.Destroy()
+			return true
+		}
 		// sizes from tens of bytes to beyond the buffer-reuse cap (1 KiB here)
 		// with the 1 KiB reuse cap: 500 / 700 bytes of padding make the buffer's capacity exactly the cap
 		sizes := []int{8, 40, 200, 500, 700, 900, 1100, 3100}
-		type evt struct {
-			id   int64
-			size int
-		}
+		poisoned := run%4 == 1 // some calls fail inside a user-supplied encoder and are recovered by the caller
+		desc["poisoned_calls"] = poisoned
 		var all []evt
+		perG := make([][]evt, goroutines)
+		for g := 0; g < goroutines; g++ {
+			for k := 0; k < per; k++ {
+				e := evt{int64(g*1000 + k + 1), sizes[rng.Intn(len(sizes))], poisoned && k%4 == 1}
+				perG[g] = append(perG[g], e)
+				all = append(all, e)
+			}
+		}
+		// two layouts of different file:line width on one call site: the narrow layout's lines are taken alone
+		// before the wide one has ever formatted that site, the wide layout's afterwards
+		if sinkKind == "console+slowsink" && !runAlone(all, "out2") {
+			return
+		}
+		log.Destroy()
+		log.VerifReset()
+		srTag = log.RegisterTag("sync_tag")
+		if err := log.Refresh(cfg.Map(nil)); err != nil {
+			r.SetInfra("syncrec refresh: %v", err)
+			return
+		}
 		srRec.mu.Lock()
 		srRec.on = true
 		srRec.evs = nil
@@ -277,12 +373,7 @@ func cmdSyncRec(f hx.Flags, r *hx.Result) {
 		var wg sync.WaitGroup
 		var crashed atomic.Value
 		for g := 0; g < goroutines; g++ {
-			var mine []evt
-			for k := 0; k < per; k++ {
-				e := evt{int64(g*1000 + k + 1), sizes[rng.Intn(len(sizes))]}
-				mine = append(mine, e)
-				all = append(all, e)
-			}
+			mine := perG[g]
 			wg.Add(1)
 			go func(mine []evt) {
 				defer wg.Done()
@@ -292,7 +383,9 @@ func cmdSyncRec(f hx.Flags, r *hx.Result) {
 					}
 				}()
 				for _, e := range mine {
-					srLog(ctx, e.id, e.size)
+					if p := srCall(ctx, e.id, e.size, e.poison); p != nil {
+						panic(p)
+					}
 				}
 			}(mine)
 		}
@@ -324,34 +417,12 @@ func cmdSyncRec(f hx.Flags, r *hx.Result) {
 				stream = append(stream, b...)
 			}
 		}
-		// the same events formatted alone, through the same logger kind and call site
-		log.VerifReset()
-		srTag = log.RegisterTag("sync_tag")
-		alone := &sinkLog{}
-		log.Stdout = consoleSink{alone}
-		slowSinkLog = alone
-		cfg2 := sys.Cfg{}
-		for k, v := range cfg {
-			cfg2[k] = v
+		only := ""
+		if sinkKind == "console+slowsink" {
+			only = "out" // the narrow layout's lines were taken before the run
 		}
-		if sinkKind == "file" || sinkKind == "rolling" {
-			cfg2["appender.out.type"] = "Console"
-			delete(cfg2, "appender.out.fileDir")
-			delete(cfg2, "appender.out.fileName")
-			delete(cfg2, "appender.out.rotation")
-			delete(cfg2, "appender.out.maxAge")
-		}
-		if err := log.Refresh(cfg2.Map(nil)); err != nil {
-			r.SetInfra("syncrec refresh (alone): %v", err)
+		if !runAlone(all, only) {
 			return
-		}
-		want := map[string]int{}
-		for _, e := range all {
-			before := len(alone.writes)
-			srLog(ctx, e.id, e.size)
-			for _, w := range alone.writes[before:] {
-				want[string(w)]++
-			}
 		}
 		log.Destroy()
 		os.RemoveAll(dir)
